@@ -305,3 +305,38 @@ def long_rhs_grammar(rng, L, nv_extra=0):
     near = [w, w[:-2] + w[-1], w[:-1], w[:-3] + w[-2:], w[:5] + w[6:], w + 'z', w[:-3] + 'y' + w[-3:], w[:-4] + w[-3:]]
     near.append(w[:wpos] + 'b' + w[wpos + 1:])
     return RG, near
+
+
+def random_long_words(rng, RG, count=4, min_len=8, max_len=14, tries=200):
+    """words of the language obtained by random leftmost derivation (reference side), plus near misses"""
+    by = {}
+    for (A, rhs) in RG[2]:
+        by.setdefault(A, []).append(rhs)
+    out = []
+    for _ in range(tries):
+        form = [('V', RG[3])]
+        steps = 0
+        while steps < 400 and any(k == 'V' for (k, _) in form) and len(form) <= max_len + 6:
+            i = next(j for j, (k, _) in enumerate(form) if k == 'V')
+            alts = by.get(form[i][1])
+            if not alts:
+                break
+            # prefer growing alternatives while short, terminating ones when long
+            terms = sum(1 for (k, _) in form if k == 'T')
+            pick = rng.choice(alts)
+            if terms + len(form) > max_len:
+                short = [a for a in alts if all(k == 'T' for (k, _) in a)]
+                if short:
+                    pick = rng.choice(short)
+            form = form[:i] + list(pick) + form[i + 1:]
+            steps += 1
+        if all(k == 'T' for (k, _) in form):
+            w = ''.join(x for (_, x) in form)
+            if min_len <= len(w) <= max_len and w not in out:
+                out.append(w)
+                if len(out) >= count:
+                    break
+    near = []
+    for w in out:
+        near += [w[:-1], w[1:], w[:len(w) // 2] + w[len(w) // 2 + 1:], w + w[-1]]
+    return out + near[:count * 2]
